@@ -77,7 +77,14 @@ _IDENT = {"id0": (False, None), "id_a2": (True, 2), "id_3": (False, 3), "id_a": 
 
 COMMENTS = ["hello", "second note", "x", ""]
 # column names of the identifier-quoting classes (mixed case, reserved word, space, quote character, bracket)
-QUOTED_NAMES = ["Balance", "order", "my col", "it's", "a]b", "c1"]
+QUOTED_NAMES = ["Balance", "order", "my col", "it's", "c1"]
+_CLOSE = {"dq": 'a"b', "bt": "a`b", "br": "a]b"}  # a name containing the dialect's closing delimiter
+QUOTED_TABLES = ["t1", "My Table", "select"]
+QUOTED_SCHEMAS = [None, "s1", "My Schema"]
+
+
+def quoted_names(dialect):
+    return QUOTED_NAMES + [_CLOSE[_QKIND[dialect]]]
 NEW_NAMES = ["c2", "c3", "c1"]  # c1 = rename to the same name
 
 # ---------------------------------------------------------------------------------------------
@@ -260,8 +267,45 @@ def run_impl(dialect, req):
 # ---------------------------------------------------------------------------------------------
 # statement parsers
 
-ID = r"(\w+)"
-TREF = r"(?:(\w+)\.)?(\w+)"
+# identifier tokens per dialect: a bare word or a delimited identifier (close delimiter doubled inside)
+_Q = {
+    "dq": r'(?:"(?:[^"]|"")+"|\w+)',      # default, sqlite, postgresql, oracle
+    "bt": r"(?:`(?:[^`]|``)+`|\w+)",      # mysql, mariadb
+    "br": r"(?:\[(?:[^\]]|\]\])+\]|\w+)",  # mssql
+}
+_QKIND = {"default": "dq", "sqlite": "dq", "postgresql": "dq", "oracle": "dq", "mysql": "bt", "mariadb": "bt", "mssql": "br"}
+
+
+def _unq_ident(kind, tok):
+    """the name an identifier token denotes"""
+    if tok is None:
+        return None
+    if kind == "dq" and tok.startswith('"'):
+        return tok[1:-1].replace('""', '"')
+    if kind == "bt" and tok.startswith("`"):
+        return tok[1:-1].replace("``", "`")
+    if kind == "br" and tok.startswith("["):
+        return tok[1:-1].replace("]]", "]")
+    return tok
+
+
+# set by parse_statement for the dialect being parsed
+_KIND = "dq"
+ID = "(%s)" % _Q["dq"]
+TREF = r"(?:(%s)\.)?(%s)" % (_Q["dq"], _Q["dq"])
+
+
+def _set_dialect(dialect):
+    global _KIND, ID, TREF
+    _KIND = _QKIND[dialect]
+    q = _Q[_KIND]
+    ID = "(%s)" % q
+    TREF = r"(?:(%s)\.)?(%s)" % (q, q)
+
+
+def _U(tok):
+    return _unq_ident(_KIND, tok)
+
 
 
 def split_statements(dialect, text):
@@ -291,7 +335,7 @@ def _unq(lit):
 
 
 def _t(m, i=1):
-    return {"schema": m.group(i), "table": m.group(i + 1)}
+    return {"schema": _U(m.group(i)), "table": _U(m.group(i + 1))}
 
 
 def _ident_opts(s):
@@ -304,13 +348,13 @@ def _ident_opts(s):
     return False, None
 
 
-def _constraint_stmts(s, idpat=ID, unq=lambda x: x):
-    m = re.fullmatch(r"ALTER TABLE %s DROP CONSTRAINT %s" % (TREF, ID), s)
+def _constraint_stmts(s):
+    m = re.fullmatch(r"ALTER TABLE %s DROP CONSTRAINT (\w+)" % TREF, s)
     if m:
         return {"k": "dropConstraint", **_t(m), "name": m.group(3)}
-    m = re.fullmatch(r"ALTER TABLE %s ADD (?:CONSTRAINT %s )?CHECK \(%s IN \(.*\)\)" % (TREF, ID, idpat), s)
+    m = re.fullmatch(r"ALTER TABLE %s ADD (?:CONSTRAINT (\w+) )?CHECK \(%s IN \(.*\)\)" % (TREF, ID), s)
     if m:
-        return {"k": "addConstraint", **_t(m), "name": m.group(3), "col": unq(m.group(4))}
+        return {"k": "addConstraint", **_t(m), "name": m.group(3), "col": _U(m.group(4))}
     return None
 
 
@@ -319,38 +363,38 @@ def _parse_generic(s, rename_kw, pg):
     A = r"ALTER TABLE %s ALTER COLUMN %s" % (TREF, ID)
     m = re.fullmatch(A + r" (SET|DROP) NOT NULL", s)
     if m:
-        return {"k": "nullable", **_t(m), "col": m.group(3), "n": m.group(4) == "DROP"}
+        return {"k": "nullable", **_t(m), "col": _U(m.group(3)), "n": m.group(4) == "DROP"}
     m = re.fullmatch(A + r" DROP DEFAULT", s)
     if m:
-        return {"k": "default", **_t(m), "col": m.group(3), "d": None}
+        return {"k": "default", **_t(m), "col": _U(m.group(3)), "d": None}
     m = re.fullmatch(A + r" SET DEFAULT (.+)", s)
     if m:
-        return {"k": "default", **_t(m), "col": m.group(3), "d": m.group(4)}
+        return {"k": "default", **_t(m), "col": _U(m.group(3)), "d": m.group(4)}
     if pg:
         m = re.fullmatch(A + r" TYPE (.+?) USING (.+)", s)
         if m:
-            return {"k": "type", **_t(m), "col": m.group(3), "ty": m.group(4), "using": m.group(5)}
+            return {"k": "type", **_t(m), "col": _U(m.group(3)), "ty": m.group(4), "using": m.group(5)}
     m = re.fullmatch(A + r" TYPE (.+)", s)
     if m:
-        return {"k": "type", **_t(m), "col": m.group(3), "ty": m.group(4), "using": None}
+        return {"k": "type", **_t(m), "col": _U(m.group(3)), "ty": m.group(4), "using": None}
     m = re.fullmatch(r"ALTER TABLE %s RENAME %s%s TO %s" % (TREF, rename_kw, ID, ID), s)
     if m:
-        return {"k": "rename", **_t(m), "col": m.group(3), "new": m.group(4)}
+        return {"k": "rename", **_t(m), "col": _U(m.group(3)), "new": _U(m.group(4))}
     if pg:
         m = re.fullmatch(r"COMMENT ON COLUMN %s\.%s IS (NULL|'.*')" % (TREF, ID), s, re.S)
         if m:
             c = None if m.group(4) == "NULL" else _unq(m.group(4))
             if m.group(4) != "NULL" and c is None:
                 return None
-            return {"k": "comment", **_t(m), "col": m.group(3), "c": c}
+            return {"k": "comment", **_t(m), "col": _U(m.group(3)), "c": c}
         m = re.fullmatch(A + r" DROP IDENTITY", s)
         if m:
-            return {"k": "identityDrop", **_t(m), "col": m.group(3)}
+            return {"k": "identityDrop", **_t(m), "col": _U(m.group(3))}
         m = re.fullmatch(A + r" ADD GENERATED (ALWAYS|BY DEFAULT) AS IDENTITY ?(\(.*\))?", s)
         if m:
             ok, start = _ident_opts(m.group(5))
             if ok:
-                return {"k": "identityAdd", **_t(m), "col": m.group(3), "always": m.group(4) == "ALWAYS", "start": start}
+                return {"k": "identityAdd", **_t(m), "col": _U(m.group(3)), "always": m.group(4) == "ALWAYS", "start": start}
         m = re.fullmatch(A + r"((?: SET GENERATED (?:ALWAYS|BY DEFAULT)| SET START WITH \d+)*)", s)
         if m:
             body = m.group(4)
@@ -365,7 +409,7 @@ def _parse_generic(s, rename_kw, pg):
                         always = p.endswith("ALWAYS")
                     else:
                         start = int(p.split()[-1])
-                return {"k": "identityAlter", **_t(m), "col": m.group(3), "always": always, "start": start}
+                return {"k": "identityAlter", **_t(m), "col": _U(m.group(3)), "always": always, "start": start}
     return _constraint_stmts(s)
 
 
@@ -390,32 +434,24 @@ def _parse_mysql(s):
     if m:
         cs = _mysql_colspec(m.group(5))
         if cs:
-            return {"k": "mysqlChange", **_t(m), "col": m.group(3), "new": m.group(4), **cs}
+            return {"k": "mysqlChange", **_t(m), "col": _U(m.group(3)), "new": _U(m.group(4)), **cs}
     m = re.fullmatch(r"ALTER TABLE %s MODIFY %s (.+)" % (TREF, ID), s, re.S)
     if m:
         cs = _mysql_colspec(m.group(4))
         if cs:
-            return {"k": "mysqlModify", **_t(m), "col": m.group(3), **cs}
+            return {"k": "mysqlModify", **_t(m), "col": _U(m.group(3)), **cs}
     A = r"ALTER TABLE %s ALTER COLUMN %s" % (TREF, ID)
     m = re.fullmatch(A + r" DROP DEFAULT", s)
     if m:
-        return {"k": "default", **_t(m), "col": m.group(3), "d": None}
+        return {"k": "default", **_t(m), "col": _U(m.group(3)), "d": None}
     m = re.fullmatch(A + r" SET DEFAULT (.+)", s)
     if m:
-        return {"k": "default", **_t(m), "col": m.group(3), "d": m.group(4)}
+        return {"k": "default", **_t(m), "col": _U(m.group(3)), "d": m.group(4)}
     return _constraint_stmts(s)
 
 
-# MSSQL: identifiers may be bracketed ([My Col], ] doubled); names embedded in T-SQL string literals have ' doubled.
-IDM = r"(\[(?:[^\]]|\]\])+\]|\w+)"
+# MSSQL: names embedded in T-SQL string literals have ' doubled.
 LIT = r"'((?:[^']|'')*)'"
-
-
-def _unq_m(tok):
-    """the name a T-SQL identifier token denotes"""
-    if tok.startswith("["):
-        return tok[1:-1].replace("]]", "]")
-    return tok
 
 
 def _unlit(body):
@@ -432,72 +468,85 @@ _MSSQL_DROP = re.compile(
 )
 
 
+def _object_id_ref(text):
+    """the table an object_id('...') argument denotes: either bracketed parts ([s].[t]) or -- what the code embeds --
+    the raw names joined by '.' (pool names contain no '.')"""
+    m = re.fullmatch(r"(?:(\[(?:[^\]]|\]\])+\])\.)?(\[(?:[^\]]|\]\])+\])", text)
+    if m:
+        return {"objSchema": _U(m.group(1)), "objTable": _U(m.group(2))}
+    parts = text.split(".")
+    if len(parts) == 1:
+        return {"objSchema": None, "objTable": parts[0]}
+    if len(parts) == 2:
+        return {"objSchema": parts[0], "objTable": parts[1]}
+    return None
+
+
 def _parse_mssql(s):
     m = _MSSQL_DROP.fullmatch(s)
     if m:
         # three names inside string literals: the table object_id() looks up, the string col_name() is compared
         # with (kept verbatim after undoing the literal escaping: it has to BE the column name), and the table of
         # the inner ALTER TABLE.  All three go to the model comparison and to the Lean spec.
-        obj = re.fullmatch(TREF, _unlit(m.group(1)))
+        obj = _object_id_ref(_unlit(m.group(1)))
         inner = re.fullmatch(TREF, _unlit(m.group(3)))
         if not obj or not inner:
             return None
-        return {"k": "mssqlDropDefault", "schema": inner.group(1), "table": inner.group(2),
-                "objSchema": obj.group(1), "objTable": obj.group(2), "col": _unlit(m.group(2))}
-    m = re.fullmatch(r"EXEC sp_rename %s, %s, 'COLUMN'" % (LIT, IDM), s)
+        return {"k": "mssqlDropDefault", **_t(inner), **obj, "col": _unlit(m.group(2))}
+    m = re.fullmatch(r"EXEC sp_rename %s, %s, 'COLUMN'" % (LIT, ID), s)
     if m:
-        inner = re.fullmatch(r"%s\.%s" % (TREF, IDM), _unlit(m.group(1)))
+        inner = re.fullmatch(r"%s\.%s" % (TREF, ID), _unlit(m.group(1)))
         if not inner:
             return None
-        return {"k": "rename", "schema": inner.group(1), "table": inner.group(2), "col": _unq_m(inner.group(3)),
-                "new": _unq_m(m.group(2))}
-    m = re.fullmatch(r"ALTER TABLE %s ADD DEFAULT (.+) FOR %s" % (TREF, IDM), s)
+        return {"k": "rename", **_t(inner), "col": _U(inner.group(3)), "new": _U(m.group(2))}
+    m = re.fullmatch(r"ALTER TABLE %s ADD DEFAULT (.+) FOR %s" % (TREF, ID), s)
     if m:
-        return {"k": "mssqlAddDefault", **_t(m), "col": _unq_m(m.group(4)), "d": m.group(3)}
-    m = re.fullmatch(r"ALTER TABLE %s ALTER COLUMN %s (.+?)( NOT NULL| NULL)?" % (TREF, IDM), s)
+        return {"k": "mssqlAddDefault", **_t(m), "col": _U(m.group(4)), "d": m.group(3)}
+    m = re.fullmatch(r"ALTER TABLE %s ALTER COLUMN %s (.+?)( NOT NULL| NULL)?" % (TREF, ID), s)
     if m:
         n = None if m.group(5) is None else (m.group(5).strip() == "NULL")
-        return {"k": "mssqlAlter", **_t(m), "col": _unq_m(m.group(3)), "ty": m.group(4), "n": n}
-    return _constraint_stmts(s, IDM, _unq_m)
+        return {"k": "mssqlAlter", **_t(m), "col": _U(m.group(3)), "ty": m.group(4), "n": n}
+    return _constraint_stmts(s)
 
 
 def _parse_oracle(s):
     M = r"ALTER TABLE %s MODIFY %s" % (TREF, ID)
     m = re.fullmatch(M + r" (NOT NULL|NULL)", s)
     if m:
-        return {"k": "nullable", **_t(m), "col": m.group(3), "n": m.group(4) == "NULL"}
+        return {"k": "nullable", **_t(m), "col": _U(m.group(3)), "n": m.group(4) == "NULL"}
     m = re.fullmatch(M + r" DEFAULT (.+)", s)
     if m:
         d = m.group(4)
-        return {"k": "default", **_t(m), "col": m.group(3), "d": None if d == "NULL" else d}
+        return {"k": "default", **_t(m), "col": _U(m.group(3)), "d": None if d == "NULL" else d}
     m = re.fullmatch(M + r" DROP IDENTITY", s)
     if m:
-        return {"k": "identityDrop", **_t(m), "col": m.group(3)}
+        return {"k": "identityDrop", **_t(m), "col": _U(m.group(3))}
     m = re.fullmatch(M + r" GENERATED (ALWAYS|BY DEFAULT) AS IDENTITY ?(\(.*\))?", s)
     if m:
         ok, start = _ident_opts(m.group(5))
         if ok:
-            return {"k": "identitySet", **_t(m), "col": m.group(3), "always": m.group(4) == "ALWAYS", "start": start}
+            return {"k": "identitySet", **_t(m), "col": _U(m.group(3)), "always": m.group(4) == "ALWAYS", "start": start}
         return None
     m = re.fullmatch(r"ALTER TABLE %s RENAME COLUMN %s TO %s" % (TREF, ID, ID), s)
     if m:
-        return {"k": "rename", **_t(m), "col": m.group(3), "new": m.group(4)}
+        return {"k": "rename", **_t(m), "col": _U(m.group(3)), "new": _U(m.group(4))}
     m = re.fullmatch(r"COMMENT ON COLUMN %s\.%s IS ('.*')" % (TREF, ID), s, re.S)
     if m:
         c = _unq(m.group(4))
         if c is None:
             return None
-        return {"k": "comment", **_t(m), "col": m.group(3), "c": c}
+        return {"k": "comment", **_t(m), "col": _U(m.group(3)), "c": c}
     r = _constraint_stmts(s)
     if r:
         return r
     m = re.fullmatch(M + r" (.+)", s)
     if m:
-        return {"k": "type", **_t(m), "col": m.group(3), "ty": m.group(4), "using": None}
+        return {"k": "type", **_t(m), "col": _U(m.group(3)), "ty": m.group(4), "using": None}
     return None
 
 
 def parse_statement(dialect, s):
+    _set_dialect(dialect)
     if dialect == "default":
         return _parse_generic(s, "", False)
     if dialect == "sqlite":
